@@ -51,9 +51,9 @@ WIDTHS = [1, 2, 10, 20, 80, 200, 10000]
 def _classes():
     import ctrlrun
     from asyncio_taskpool.pool import SimpleTaskPool, TaskPool
-    SubA, SubB, SubC = ctrlrun.make_subclasses()
+    SubA, SubB, SubC, SubD = ctrlrun.make_subclasses()
     return {"TaskPool": TaskPool, "SimpleTaskPool": SimpleTaskPool, "SubA": SubA, "SubB": SubB,
-            "SubC": SubC}
+            "SubC": SubC, "SubD": SubD}
 
 
 def model_table(surf_lines):
@@ -442,7 +442,7 @@ def jobs(pid, tier, seed):
     js = []
     base = seed * 7919 + int(pid[1:]) * 101
     if pid == "C16":
-        for c in ("TaskPool", "SimpleTaskPool", "SubA", "SubB", "SubC"):
+        for c in ("TaskPool", "SimpleTaskPool", "SubA", "SubB", "SubC", "SubD"):
             for w in WIDTHS:
                 js.append(("prop_ctrl", "job_c16", {"clsname": c, "width": w}))
     elif pid == "C17":
